@@ -302,6 +302,7 @@ type c11Sched struct {
 	abort    chan struct{}
 	replaced int // number of "replaced" notifications
 	dead     bool
+	mutex    bool // mutex granularity (c11mutex.go): park at the points inside the sections of the reader's mutex too
 	reader   any
 	readyCh  chan struct{} // closed once reader is known
 
@@ -335,6 +336,10 @@ func (s *c11Sched) yield(reader any, point string) {
 	}
 	if point == "replaced" {
 		s.replaced++
+		s.mu.Unlock()
+		return
+	}
+	if c11Held(point) && !s.mutex {
 		s.mu.Unlock()
 		return
 	}
@@ -391,31 +396,36 @@ func (s *c11Sched) park(point string, waitR int) {
 func (s *c11Sched) next() (*c11Thread, bool) {
 	select {
 	case ev := <-s.events:
-		t := ev.t
-		if t.kind == 0 {
-			switch ev.point {
-			case "p-idle":
-				t.kind = 'P'
-				s.prod = t
-			case "replace", "x-exit":
-				t.kind = 'X'
-				s.extT = t
-			default:
-				t.kind = 'L'
-				t.idx = len(s.loops)
-				s.loops = append(s.loops, t)
-			}
-		}
-		t.point = ev.point
-		t.waitR = ev.waitR
-		if ev.point == "exit" || ev.point == "x-exit" || ev.point == "p-exit" {
-			t.exited = true
-		}
-		return t, true
+		return s.file(ev), true
 	case <-time.After(c11WD()):
 		c11Hangs.Add(1)
 		return nil, false
 	}
+}
+
+// file records one event: the thread's kind (at its first event) and the point it has reached
+func (s *c11Sched) file(ev c11Event) *c11Thread {
+	t := ev.t
+	if t.kind == 0 {
+		switch ev.point {
+		case "p-idle":
+			t.kind = 'P'
+			s.prod = t
+		case "replace", "x-exit":
+			t.kind = 'X'
+			s.extT = t
+		default:
+			t.kind = 'L'
+			t.idx = len(s.loops)
+			s.loops = append(s.loops, t)
+		}
+	}
+	t.point = ev.point
+	t.waitR = ev.waitR
+	if ev.point == "exit" || ev.point == "x-exit" || ev.point == "p-exit" {
+		t.exited = true
+	}
+	return t
 }
 
 // waitUntil consumes events until cond holds
@@ -840,10 +850,10 @@ func c11RandomCfg(rng *Rng, big bool) c11Cfg {
 
 func runC11(a runArgs) error {
 	e := NewEmitter("C11", "Reader.Run")
-	e.Preamble = "From GoCoap Require Import Reader.Model Reader.Spec."
+	e.Preamble = "From GoCoap Require Import Reader.Model Reader.Spec Reader.Mutex."
 	e.ShardSize = 400
 	e.MaxBytes = 400000
-	e.Rule = "layer (a) stand-alone client.ReceivedMessageReader with a fake client: forced = cooperative scheduler behind the verifYield points executes a schedule (threads: producer P, loops L<i>, external TryToReplaceLoop caller X, closer C), every step's resulting scheduling point and the dispatch log are compared with the model; all schedules of the small configurations (depth-first by re-execution), random schedules of random configurations (queue sizes 0,1,2,16; handler programs of TryToReplaceLoop calls R and nested blocking requests N<r>; close). stat = hook-free free-running trials. layer (b) real udp/client.Conn over the in-memory session with handlers issuing nested Do to depth 1-3 (thorough: up to 5). layer (c) bursts of 3-200 back-to-back messages through the socket reader's hand-off into the receive queue of a real tcp/client.Conn (scripted stream; one write, writes of j frames, writes of j bytes) and of a real udp/client.Conn (one goroutine calling Process), queue sizes 0/1/16, handlers that return at once, that block on a harness channel until the reader is parked on the full queue, and that issue a nested request whose response is part of the burst. layer (d) real udp / tcp connections, one message at a time: confirmable nested requests answered by a piggybacked ACK, pings issued by handlers (pong behind 0..queue+2 messages), requests of the peer whose message ID is placed relative to the connection's own counter (equal to the next ID drawn, inside / at the edges of / outside the checkMyMessageID window, across the 16-bit wrap of either counter, two requests 0x8000 apart), retransmitted copies of a request whose handler is blocked or has finished; a wait ends as a stall when the connection is quiescent (socket reader through or parked, every reader-loop goroutine blocked, twice in a row) without the awaited effect. Distinct = distinct (configuration, executed schedule) resp. burst / script descriptor; non-trivial = at least one replacement request in the run (handler program or external caller), for a burst: more messages than queue size + 1 (some push has to wait for the consumer)."
+	e.Rule = "layer (a) stand-alone client.ReceivedMessageReader with a fake client: forced = cooperative scheduler behind the verifYield points executes a schedule (threads: producer P, loops L<i>, external TryToReplaceLoop caller X, closer C), every step's resulting scheduling point and the dispatch log are compared with the model; all schedules of the small configurations (depth-first by re-execution), random schedules of random configurations (queue sizes 0,1,2,16; handler programs of TryToReplaceLoop calls R and nested blocking requests N<r>; close). stat = hook-free free-running trials. layer (b) real udp/client.Conn over the in-memory session with handlers issuing nested Do to depth 1-3 (thorough: up to 5). layer (c) bursts of 3-200 back-to-back messages through the socket reader's hand-off into the receive queue of a real tcp/client.Conn (scripted stream; one write, writes of j frames, writes of j bytes) and of a real udp/client.Conn (one goroutine calling Process), queue sizes 0/1/16, handlers that return at once, that block on a harness channel until the reader is parked on the full queue, and that issue a nested request whose response is part of the burst. layer (d) real udp / tcp connections, one message at a time: confirmable nested requests answered by a piggybacked ACK, pings issued by handlers (pong behind 0..queue+2 messages), requests of the peer whose message ID is placed relative to the connection's own counter (equal to the next ID drawn, inside / at the edges of / outside the checkMyMessageID window, across the 16-bit wrap of either counter, two requests 0x8000 apart), retransmitted copies of a request whose handler is blocked or has finished; a wait ends as a stall when the connection is quiescent (socket reader through or parked, every reader-loop goroutine blocked, twice in a row) without the awaited effect; the scripts also carry notifications of one or two observations whose observe callback executes a program (nested request, confirmable nested request, ping, registration of a further observation) while further notifications of the same observation, of the other one and requests arrive before the awaited reply, retransmitted notifications, and handlers that register an observation themselves. layer (a) at mutex granularity (ForcedM): the same reader with scheduling points inside the two sections of its mutex; plans that drive TryToReplaceLoop / the re-lock into the held mutex, all schedules (capped) of small configurations, random schedules; a goroutine let into the held mutex is seen blocked in sync.Mutex.Lock (stack witness). Distinct = distinct (configuration, executed schedule) resp. burst / script descriptor; non-trivial = at least one replacement request in the run (handler program or external caller), for a burst: more messages than queue size + 1 (some push has to wait for the consumer)."
 	rng := NewRng(a.seed)
 	nontrivial := func(c c11Cfg) bool {
 		if c.k > 0 {
@@ -888,6 +898,8 @@ func runC11(a runArgs) error {
 			c11BurstOnly(e, a.only)
 		case "X":
 			c11XOnly(e, a.only)
+		case "M":
+			c11MutexOnly(e, a.only)
 		}
 		return e.Flush(a.out)
 	}
@@ -972,5 +984,7 @@ func runC11(a runArgs) error {
 	c11BurstCases(e, rng, thorough)
 	// 6. blocking operations other than a plain nested Do, message-ID constellations, retransmitted copies
 	c11XCases(e, rng, thorough)
+	// 7. forced schedules at the granularity of the reader's mutex (goroutines parked inside its sections)
+	c11MutexCases(e, rng, thorough, nontrivial)
 	return e.Flush(a.out)
 }
